@@ -111,6 +111,7 @@ pub struct Failure {
     pub text: String,
     pub cfg: Cfg,
     pub width: usize,
+    pub wmax: usize,
     pub nwidths: usize,
     pub range: Option<(Option<usize>, Option<usize>)>,
     pub detail: String,
@@ -454,6 +455,7 @@ fn record(
     let k = format!("{}|{:?}", class, range);
     if let Some(idx) = seen.get(&k) {
         fails[*idx].nwidths += 1;
+        fails[*idx].wmax = fails[*idx].wmax.max(width);
         return;
     }
     seen.insert(k, fails.len());
@@ -463,6 +465,7 @@ fn record(
         text: case.text.clone(),
         cfg: *cfg,
         width,
+        wmax: width,
         nwidths: 1,
         range,
         detail,
@@ -602,6 +605,7 @@ pub fn run_task(plan: &Plan, case: &Case, cfg: &Cfg, st: &mut Stats, fails: &mut
                 for fl in task_fails.iter_mut() {
                     if fl.range == range && fl.output == out.chars().take(600).collect::<String>() {
                         fl.nwidths += 1;
+                        fl.wmax = fl.wmax.max(w);
                     }
                 }
             }
